@@ -28,6 +28,34 @@ Proof. intros a b H. rewrite tadd_eq. rewrite <- (Qplus_0_r a) at 1. apply Qplus
 Lemma tadd_gt : forall a b, (0 < b)%Q -> (a < tadd a b)%Q.
 Proof. intros a b H. rewrite tadd_eq. rewrite <- (Qplus_0_r a) at 1. apply Qplus_lt_r. exact H. Qed.
 
+(* floor(x) + 1 > x *)
+Lemma qfloor_succ_gt : forall x, (x < inject_Z (qfloor x + 1))%Q.
+Proof.
+  intros [n d]. unfold qfloor, Qlt, inject_Z. simpl. rewrite Z.mul_1_r.
+  pose proof (Z.mul_succ_div_gt n (Zpos d) ltac:(lia)). lia.
+Qed.
+Lemma qfloor_le : forall x, (inject_Z (qfloor x) <= x)%Q.
+Proof.
+  intros [n d]. unfold qfloor, Qle, inject_Z. simpl. rewrite Z.mul_1_r.
+  pose proof (Z.mul_div_le n (Zpos d) ltac:(lia)). lia.
+Qed.
+Lemma clk_freq_pos : forall cfg c, (0 < clk_freq cfg c)%Q.
+Proof. intros cfg c. destruct c; apply pQ_pos. Qed.
+Lemma xfreq_pos : forall cfg x, (0 < xfreq cfg x)%Q.
+Proof.
+  intros cfg x. destruct x as [f|p m]; unfold xfreq; [apply pQ_pos|].
+  rewrite Qred_correct. apply Qmult_lt_0_compat; [apply clk_freq_pos | apply pQ_pos].
+Qed.
+Lemma extra_freq_pos : forall cfg i, (0 < extra_freq cfg i)%Q.
+Proof. intros. apply xfreq_pos. Qed.
+
+(* the next tick lies strictly after now *)
+Lemma next_tick_gt : forall f now, (0 < f)%Q -> (now < next_tick f now)%Q.
+Proof.
+  intros f now Hf. unfold next_tick. rewrite Qred_correct.
+  apply Qlt_shift_div_l; [exact Hf|]. apply qfloor_succ_gt.
+Qed.
+
 Definition entry_time (e : entry) : option Q :=
   match e with
   | LProc t _ _ _ _ _ | LEdge t _ _ _ _ _ => Some t
@@ -99,7 +127,7 @@ Proof.
     pose proof (step_frame_ctl cfg f s) as C. rewrite Hsf in C. cbn [snd] in C. destruct C as (C1 & C2 & C3 & C4).
     pose proof (frame_step_effect cfg f s s' F Hh) as Ef.
     assert (Pst : forall e t, In e (s_log s') -> entry_time e = Some t -> (t <= s_now s')%Q) by (apply (effect_past false s s' Ef C1 Ip)).
-    destruct (frame_step_bk cfg f s s' F) as [Q A B W N Cq|pid q Q A B W N Cq|pid c ph Q A B W N Cq|pid m Q A B W N Cq|pid Q A B W N Cq].
+    destruct (frame_step_bk cfg f s s' F) as [Q A B W N Cq|pid q Q A B W N Cq|pid c ph Q A B W N Cq|pid m Q A B W N Cq|pid Q A B W N Cq|pid xi ph Q A B W N Cq].
     + constructor; try assumption.
       * rewrite Q, C1. exact If.
       * intros k a Ha. apply (Ia k). destruct k; simpl in *; congruence.
@@ -136,6 +164,14 @@ Proof.
       * rewrite Q. exact Ie.
       * rewrite C2, C4. exact Ir.
       * rewrite Q. exact Im.
+    + (* WaitClock on a register-less clock *)
+      constructor; try assumption.
+      * rewrite Q, C1. intros e He. apply q_insert_in in He. destruct He as [->|He]; [|apply If; exact He].
+        simpl. apply Qlt_le_weak. apply next_tick_gt. apply extra_freq_pos.
+      * intros k a Ha. apply (Ia k). destruct k; simpl in *; congruence.
+      * rewrite Q. intros e c ph0 He Ty Wy. apply q_insert_in in He. destruct He as [->|He]; [discriminate Wy | eapply Ie; eassumption].
+      * rewrite C2, C4. exact Ir.
+      * rewrite Q. intros e He Ty Hp. apply q_insert_in in He. destruct He as [->|He]; [reflexivity | apply Im; assumption].
   - (* task *)
     pose proof (task_head_ctl t (set_ready r s)) as C. rewrite Hth in C. cbn [snd] in C. destruct C as (C1 & C2 & C3 & C4).
     pose proof (task_head_bk t (set_ready r s)) as B. rewrite Hth in B. cbn [snd] in B. destruct B as (Q & A & B & _).
